@@ -241,7 +241,30 @@ CHECKS = {
 PENDING_REASON = "check not built yet in this session (design in DESIGN.md §5); will be claimed once its monitors run clean on the unchanged tree"
 
 
+# later widenings (appended to the texts above)
+EXTRA = {
+    "C01": "A dedicated generator tries 700 phase offsets per run on fresh PSK objects (constructor, setter, setter after use); received samples also arrive in float and integer arrays.",
+    "C04": "Channels also come at 1e-8..1e-5 scale; the caller's channel buffer is refilled in place and the same array object handed over again.",
+    "C07": "A fifth of the configurations write the default progress bar to files; a third of the write interruptions are delivered as KeyboardInterrupt inside the write call (handlers and finally blocks run) instead of a hard kill; guard histories include parameter changes in the 7th digit and of 1e-9-magnitude values.",
+    "C08": "Path-loss matrices also come with integer dtype (all ones, 0/1 masks).",
+    "C09": "Solutions handed out earlier are held and re-compared after later calls on the same object.",
+    "C10": "Precoders are also installed under-powered with an explicit P; installed receive filters must read back as installed; the wrappers are used twice and the power changed afterwards; the svd initialisation runs for any antenna configuration.",
+    "C11": "Noise values also as int / np.int64 / np.float64; zero-forcing joint precoders without noise must give non-negative, non-NaN SINRs; installed receive filters must read back as installed.",
+    "C12": "Two consecutive solves on one buffer refilled in place; in situ, the problem block diagonalisation hands to doWF is compared with the channel's water-filling problem derived independently (null-space gains, noise, budget); gains also at 1e-14 and 1e14 scale.",
+    "C13": "Exact zero distances; whole-degree angles in integer arrays; the limits of every parameter range; the plot helper called on a caller-supplied axis inside the setter histories must leave the configuration unchanged.",
+    "C14": "Shapes are re-assigned also within the same rank / link count; a similar generator obtained from get_similar_fading_generator obeys the same law.",
+    "C15": "Bit-error operands also in different integer widths and in Fortran / swapped-axes memory order.",
+    "C16": "Modulators of the same order from different families are queried alternately with the same scalar SNR and packet length.",
+    "C17": "Parameter values include +-inf; unpacked children get unpack marks of their own; neighbouring floats (nextafter, 0.1+0.2 vs 0.3) must give distinct file names.",
+    "C18": "calcBaseZC with integer offsets q against an exact-integer phase reference; sequence objects indexed with negative integers and slices; users of a same-index root with another explicit Nzc are created first.",
+    "C20": "gmd in its tolerance form; selectors on wide matrices with few requested vectors; the inverse update on general (non-Hermitian) matrices; leig on rank-deficient covariances.",
+}
+
+
 def main():
+    for k, extra in EXTRA.items():
+        cat, text, note, tech, ref = CHECKS[k]
+        CHECKS[k] = (cat, text + "  " + extra, note, tech, ref)
     props = [json.loads(l) for l in open(os.path.join(V, "properties.jsonl"))]
     checks = []
     na = []
